@@ -535,9 +535,8 @@ def _run_fileseq(case, mon, viol):
                               f'{want!r:.80}; mode={mode} enc={enc} '
                               f'block={case["block"]} trace={trace[-6:]}'})
 
-            for _ in range(case['nops']):
-                if viol:
-                    break
+            async def step():
+                nonlocal pos, content
                 op = rng.choice(['write', 'write', 'write', 'write_at',
                                  'seek', 'tell', 'read', 'read_at',
                                  'truncate'])
@@ -610,7 +609,7 @@ def _run_fileseq(case, mon, viol):
                     n = -1 if text else rng.choice([-1, 0, 1, 64, 65, 1001,
                                                     5000])
                     if text and pos not in (None, 0):
-                        continue
+                        return
                     trace.append(('read', n, pos))
                     got = await f.read(n)
                     if pos is None:
@@ -651,6 +650,15 @@ def _run_fileseq(case, mon, viol):
                         del content[size:]
                     else:
                         content += bytes(size - len(content))
+
+            for _ in range(case['nops']):
+                if viol:
+                    break
+                try:
+                    await step()
+                except (asyncssh.Error, OSError, OverflowError,
+                        ValueError, UnicodeError) as exc:
+                    bad('call failed', repr(exc), 'no error')
                 mon['file_object_ops'] += 1
             await f.close()
             with open(os.path.join(root, 'f.bin'), 'rb') as fh:
